@@ -95,5 +95,18 @@ add("C17",
     "names, active marker) held by the reference server and served in every encoding RFC 5804 allows; getscript and "
     "listscripts must return them exactly.",
     "DESIGN.md 3/C17", "CrossHair symbolic execution (z3) enumerating stored data and reply encodings served by a reference server to Client.getscript/listscripts")
-for _p in ("C10", "C15", "C16"):
-    NOT_APPLICABLE[_p] = "check under construction in this session (see DESIGN.md section 3); not yet claimed"
+add("C10",
+    "Bounded symbolic model checking of call histories against a scripted handshake server whose behaviour at every "
+    "step, capability sets before/after TLS and TLS outcome are symbolic and lazily forced; a monitor over the ordered "
+    "log of writes on plain/TLS sockets enforces the three safety clauses; plus a static AST obligation on decorators.",
+    "DESIGN.md 3/C10", "CrossHair symbolic execution (z3) enumerating call shapes and handshake fault schedules of Client.connect; write-log monitor; AST check")
+add("C15",
+    "Bounded symbolic model checking of whole sessions against an executable RFC 5804 reference server choosing "
+    "encodings, NO outcomes and segmentation; after every step result, view of the state, leftover bytes and the "
+    "server's protocol-violation log are checked.",
+    "DESIGN.md 3/C15", "CrossHair symbolic execution (z3) enumerating operation sessions, reply encodings and cut points vs executable reference server")
+add("C16",
+    "Bounded symbolic model checking of mechanism selection (announced list x preferred mechanism x verdict, also after "
+    "TLS) and of the AUTHENTICATE payload for a pool of credentials, decoded by reference decoders.",
+    "DESIGN.md 3/C16", "CrossHair symbolic execution (z3) enumerating SASL configurations of Client.connect; payloads decoded by reference RFC 4616/7628 decoders (credential pool)",
+    "Credentials come from a finite pool because base64 is a C boundary: this is the weakest use of the technique. ")
